@@ -181,9 +181,20 @@ def replay(ctx, rep):
     st = {'kinds': tuple(c['kinds']), 'keyKind': c['key'], 'mode': c['mode'], 'simIx': tuple(c['sim']), 'chain': c['chain'],
           'out': dict(m, fees=tuple(m['fees']), gases=tuple(m['gases']), storages=tuple(m['storages']), counters=tuple(m['counters']))}
     replay_state(ctx, st, {'hard_gas': c['hard_gas'], 'hard_storage': c['hard_storage']})
-    for mm in ctx.mismatches:
-        print('REPRODUCED', mm.signature, mm.detail)
-    return 1 if ctx.mismatches else 0
+    return report_replay(ctx, rep)
+
+
+
+def report_replay(ctx, rep):
+    """exit 1 iff the saved disagreement (same signature) shows again."""
+    hits = [m for m in ctx.mismatches if m.signature == rep.get('signature')]
+    for m in hits:
+        print('REPRODUCED', m.signature, m.detail)
+    for sig in sorted(set(m.signature for m in ctx.mismatches if m not in hits)):
+        print('NOT-THE-SAVED-CASE: this run shows', sig)
+    if not hits:
+        print('not reproduced:', rep.get('signature'))
+    return 1 if hits else 0
 
 
 META = {
